@@ -4693,3 +4693,28 @@ M('C02', 'notation-binary-value-aliases-caller-bytearray', SS, "        else:  #
 M('C02', 'notation-binary-value-aliases-unless-bytes', SS, "        else:  # pragma: no cover\n            self._value = bytearray(val)\n", "        else:  # pragma: no cover\n            self._value = val if isinstance(val, bytearray) else bytearray(val)\n", 'C02.2')
 T('C02', 'twin-notation-binary-value-slice-copy', SS, "        else:  # pragma: no cover\n            self._value = bytearray(val)\n", "        else:  # pragma: no cover\n            own = val[:]\n            self._value = own\n")
 T('C02', 'twin-notation-binary-value-copy-module', SS, "        else:  # pragma: no cover\n            self._value = bytearray(val)\n", "        else:  # pragma: no cover\n            self._value = bytearray(bytes(val))\n")
+
+# ---- wave-3 twins (C05-ref10, C14-ref9, C14-ref10)
+BFLAG = "    def bflag_bytearray(self, val):\n        self.bflag = bool(self.bytes_to_int(val))"
+T('C14', 'twin-boolean-any-octet', SS, BFLAG, "    def bflag_bytearray(self, val):\n        self.bflag = any(val)")
+T('C14', 'twin-boolean-int-from-bytes', SS, BFLAG, "    def bflag_bytearray(self, val):\n        self.bflag = int.from_bytes(val, 'big') != 0")
+M('C14', 'boolean-any-after-first-octet', SS, BFLAG, "    def bflag_bytearray(self, val):\n        self.bflag = any(val[1:])", 'C14.2')
+M('C14', 'boolean-equals-one', SS, BFLAG, "    def bflag_bytearray(self, val):\n        self.bflag = self.bytes_to_int(val) == 1", 'C14.2')
+M('C14', 'boolean-low-bit-only', SS, BFLAG, "    def bflag_bytearray(self, val):\n        self.bflag = bool(val[-1] & 1)", 'C14.2')
+T('C14', 'twin-exportable-single-lookup', PGP, EXPORTABLE,
+  "        marks = self._signature.subpackets['ExportableCertification']\n        if not marks:\n            return True\n\n        return bool(marks[0])\n")
+M('C14', 'exportable-last-subpacket-decides', PGP, EXPORTABLE,
+  "        marks = self._signature.subpackets['ExportableCertification']\n        if not marks:\n            return True\n\n        return bool(marks[-1])\n", 'C14.2')
+M('C14', 'exportable-single-lookup-default-false', PGP, EXPORTABLE,
+  "        marks = self._signature.subpackets['ExportableCertification']\n        if not marks:\n            return False\n\n        return bool(marks[0])\n", 'C14.2')
+M('C14', 'exportable-hashed-area-only', PGP, EXPORTABLE,
+  "        marks = self._signature.subpackets['h_ExportableCertification']\n        if not marks:\n            return True\n\n        return bool(marks[0])\n", 'C14.2')
+KEYCOPY_ALL = "        for uid in self._uids:\n            key |= copy.copy(uid)\n\n        for id, subkey in self._children.items():\n            key |= copy.copy(subkey)\n\n" + KEYCOPY_SIGS
+T('C14', 'twin-copy-one-chained-loop', PGP, KEYCOPY_ALL,
+  "        own_sigs = (sig for sig in self._signatures if not sig.embedded)\n\n        for component in itertools.chain(self._uids, self._children.values(), own_sigs):\n            key |= copy.copy(component)\n")
+M('C14', 'copy-chain-omits-subkeys', PGP, KEYCOPY_ALL,
+  "        own_sigs = (sig for sig in self._signatures if not sig.embedded)\n\n        for component in itertools.chain(self._uids, own_sigs):\n            key |= copy.copy(component)\n", 'C14.4')
+M('C14', 'copy-chain-filters-revocations', PGP, KEYCOPY_ALL,
+  "        own_sigs = (sig for sig in self._signatures if not sig.embedded and sig.type != SignatureType.KeyRevocation)\n\n        for component in itertools.chain(self._uids, self._children.values(), own_sigs):\n            key |= copy.copy(component)\n", 'C14.4')
+M('C14', 'copy-chain-filters-uids', PGP, KEYCOPY_ALL,
+  "        own_sigs = (sig for sig in self._signatures if not sig.embedded)\n        ids = (u for u in self._uids if u.is_uid)\n\n        for component in itertools.chain(ids, self._children.values(), own_sigs):\n            key |= copy.copy(component)\n", 'C14.4')
